@@ -75,17 +75,19 @@ def run(ctx):
     if len(shapes) < 1000:
         raise vlib.Inconclusive("VACUOUS", "only %d shapes enumerated" % len(shapes))
     ctx.cov["shapes_enumerated"] = len(shapes)
-    ctx.cov["shape_classes"] = {c: sum(1 for s in shapes if s["cls"] == c) for c in ("verdict", "control", "open")}
+    ctx.cov["shape_classes"] = {c: sum(1 for s in shapes if s["cls"] == c) for c in ("verdict", "control", "open", "forbid")}
     shapes.sort(key=lambda s: (s["ctx"], s["path"], s["wk"], s["inl"]))
     if quick:
         rng = random.Random(ctx.seed)
         by = {}
         for s in shapes:
-            by.setdefault((s["ctx"], s["cls"] == "verdict"), []).append(s)
-        sel = []
-        for (c, verdict), lst in sorted(by.items()):
+            by.setdefault((s["ctx"], s["cls"]), []).append(s)
+        sel = [s for s in shapes if s["path"] == "pcur"]
+        take = {"verdict": 6, "control": 2, "open": 2, "forbid": 1}
+        for (c, cls), lst in sorted(by.items()):
+            lst = [s for s in lst if s["path"] != "pcur"]
             rng.shuffle(lst)
-            sel += lst[:7 if verdict else 2]
+            sel += lst[:take[cls]]
         parts = [sel[0::2], sel[1::2]]
     else:
         parts = [shapes[i::4] for i in range(4)]
@@ -104,6 +106,7 @@ def run(ctx):
                     "verdict_blocked_by_vm": tot.get("verdict_blocked", 0), "verdict_ok_state_unchanged": tot.get("verdict_ok_unchanged", 0),
                     "controls_mutated": tot.get("control_mutated", 0), "controls_inert": tot.get("control_inert", 0),
                     "open_mutated": tot.get("open_mutated", 0), "open_inert": tot.get("open_inert", 0),
+                    "forbidden_operations_refused": tot.get("forbid_refused", 0),
                     "contexts_executed": tot.get("contexts_executed", 0), "flaky": tot.get("flaky", 0),
                     "exhaustive": not quick})
     for r in notes["rejected"][:5]:
@@ -124,10 +127,12 @@ def run(ctx):
         raise vlib.Inconclusive("VACUOUS", "only %d of %d shapes reached the VM" % (executed, n))
     if tot.get("control_mutated", 0) < 5:
         raise vlib.Inconclusive("VACUOUS", "negative controls did not mutate the victim (%d): the harness cannot observe a mutation" % tot.get("control_mutated", 0))
+    if tot.get("forbid_refused", 0) < 10 and not bykey:
+        raise vlib.Inconclusive("VACUOUS", "construction / realm-value persistence shapes were not exercised (%d refused)" % tot.get("forbid_refused", 0))
     if tot.get("contexts_executed", 0) < 25:
         raise vlib.Inconclusive("VACUOUS", "only %d attacker contexts executed" % tot.get("contexts_executed", 0))
     ctx.log("shapes run %d, executed %d, verdict blocked %d / ok-unchanged %d, controls mutated %d, open mutated %d, violations %s" % (
         n, executed, tot.get("verdict_blocked", 0), tot.get("verdict_ok_unchanged", 0), tot.get("control_mutated", 0), tot.get("open_mutated", 0), ctx.cov["violations_by_key"]))
     ctx.assumptions += ["the victim's Dump() renders every persisted field; raw comparison covers every committed oid: entry of the victim's package id (the #realm bookkeeping entry excluded)",
-                        "shapes are the grammar of spec/MCInterrealm.tla (31 contexts x 48 access paths x 61 write kinds, type-applicable combinations), not all Gno programs",
+                        "shapes are the grammar of spec/MCInterrealm.tla (31 contexts x 50 access paths x 73 write kinds, type-applicable combinations), not all Gno programs",
                         "documented-open classes (top-level /p/ function or value-receiver /p/ method invoked by victim-authorised code; library method on a victim-owned receiver; closures minted by the victim) are negative controls, not verdicts"]
